@@ -21,6 +21,9 @@ INCOMING_TAGS = ("message", "receipt", "ack", "presence", "chatstate", "call", "
                  "stream:features", "stream:error", "unknown-tag")
 
 
+OUTGOING_PLAIN_TAGS = ("receipt", "ack", "presence", "chatstate", "call", "ib", "iq")
+
+
 def load_routing():
     with open(os.path.join(VERIF, "reference", "routing.json")) as fh:
         return json.load(fh)
@@ -408,13 +411,48 @@ def rule_split(ctx, repo):
         ok = sums == [1, 1]
         ctx.check("C06.split", ok, where(pair[0].relpath, "%s || %s" % (pair[0].name, pair[1].name), None), "encryption pair, <%s>" % tag,
                   "the two encryption layers together forward the stanza %s times: %s" % (sums, by), "forwarded by exactly one of the two: %s" % by)
+    # the outgoing direction: whatever is not a message to be encrypted passes the control layer once and leaves the
+    # send || receive pair once - the very stanza that came in (both halves see every outgoing stanza)
+    for tag in OUTGOING_PLAIN_TAGS:
+        per = {}
+        for L in [control] + list(pair):
+            try:
+                res = enumerate_cells(lambda cell, d, L=L: runner.run(L, "send", lambda it: [symbolic_node(tag)], cell, d), {}, max_cells=500)
+            except Budget:
+                ctx.undecided("C06.split", where(L.relpath, L.name + ".send", None), "outgoing <%s>" % tag, "budget")
+                per = None
+                break
+            lo = hi = None
+            other = []
+            for cell, rs in res:
+                if rs["raised"]:
+                    other.append("raises %s" % rs["raised"][:50])
+                    continue
+                l_, h_ = downs(rs["effects"])
+                lo, hi = (l_ if lo is None else min(lo, l_)), (h_ if hi is None else max(hi, h_))
+                for e in flat_effects(rs["effects"]):
+                    if e[0] == "DOWN" and not (e[1][0] == "node" and e[1][1].symbolic and e[1][1].path == ()):
+                        other.append("sends something other than the outgoing stanza")
+            per[L.name] = (lo or 0, hi or 0, other)
+        if per is None:
+            continue
+        c_lo, c_hi, c_other = per[control.name]
+        ctx.check("C06.split", (c_lo, c_hi) == (1, 1) and not c_other, where(control.relpath, control.name + ".send", None), "control layer, outgoing <%s>" % tag,
+                  "an outgoing <%s> passes the control layer %s times%s" % (tag, (c_lo, c_hi), "; " + c_other[0] if c_other else ""), "passed down exactly once, unchanged")
+        tot_lo = sum(per[L.name][0] for L in pair)
+        tot_hi = sum(per[L.name][1] for L in pair)
+        oth = [x for L in pair for x in per[L.name][2]]
+        ctx.check("C06.split", (tot_lo, tot_hi) == (1, 1) and not oth, where(pair[0].relpath, "%s || %s" % (pair[0].name, pair[1].name), None), "encryption pair, outgoing <%s>" % tag,
+                  "the two encryption layers together send an outgoing <%s> %s times (%s): every such stanza reaches the server that often%s" % (
+                      tag, (tot_lo, tot_hi), {L.name: per[L.name][:2] for L in pair}, "; " + oth[0] if oth else ""),
+                  "sent by exactly one of the two: %s" % {L.name: per[L.name][:2] for L in pair})
 
 
 def run(ctx):
     ctx.rule("C06.base", "group and dispatch semantics interpreted from the repo's code", floor=16)
     ctx.rule("C06.out", "every concrete entity class forwarded exactly once / never twice, per module selection", floor=200)
     ctx.rule("C06.in", "every incoming cell delivered exactly once when supported, never twice", floor=28)
-    ctx.rule("C06.split", "encryption layers partition the incoming tags", floor=24)
+    ctx.rule("C06.split", "encryption layers partition the incoming tags; outgoing plain stanzas leave them once", floor=38)
     ctx.rule("C06.eqser", "forwarded stanza is the entity's own serialisation", floor=50)
     ctx.rule("C06.reply", "both reply kinds handled by every registration", floor=30)
     ctx.assume("reference/routing.json lists the supported kinds (reviewed table)")
